@@ -19,7 +19,8 @@ from .hist import hx
 
 OBL = {
     "C08": [("Qsx.Props.C08", t) for t in ["Qsx.Props.C08.range_split", "Qsx.Props.C08.lp_bounds_roundtrip"]],
-    "C09": [("Qsx.Props.C08", "Qsx.Props.C08.range_split"), ("Qsx.Props.C09", "Qsx.Props.C09.mps_bounds_roundtrip")],
+    "C09": [("Qsx.Props.C08", "Qsx.Props.C08.range_split"), ("Qsx.Props.C09", "Qsx.Props.C09.mps_bounds_roundtrip"),
+            ("Qsx.Props.C09", "Qsx.Props.C09.mps_ranges_roundtrip"), ("Qsx.Props.C09", "Qsx.Props.C09.mps_ranges_meaning")],
 }
 
 NAME_POOL = ["x", "y", "z", "var", "e5", "E1", "inf1", "st1", "free1", "x_1", "c2", "c3", "r", "obj2", "Max1", "bnd", "a.b", "v(1)", "w#", "x1", "x2", "x10",
@@ -200,6 +201,84 @@ def parse_mps_bounds(text):
     return out
 
 
+def ranges_tie(exe, rng, quick, ev, rep):
+    """C09: RANGES records.  (reader) hand-rendered MPS files with a RANGES value of either sign (and zero) on rows of every
+    sense are read by the library and compared with the Lean `MpsRanges.readRow`; (writer) ranged rows of written files are
+    'G' rows with a RANGES record carrying the range."""
+    jobs = []
+    for k in range(60 if quick else 1200):
+        r = rng.fork("rg%d" % k)
+        m = r.rint(1, 4)
+        rows = []
+        for i in range(m):
+            sense = r.choice("GLE")
+            rhs = r.rat()
+            rv = r.choice([None, None, F(0), r.rat(), -abs(r.rat()) - F(1, 3), abs(r.rat()) + 1])
+            rows.append((sense, rhs, rv))
+        text = "NAME t\nROWS\n N obj\n" + "".join(" %s r%d\n" % (s_, i) for i, (s_, _, _) in enumerate(rows))
+        text += "COLUMNS\n" + "".join("    x obj 1 r%d %d\n" % (i, i + 1) for i in range(m))
+        text += "RHS\n" + "".join("    rhs r%d %s\n" % (i, q2s(rhs)) for i, (_, rhs, _) in enumerate(rows) if rhs != 0)
+        if any(rv is not None for _, _, rv in rows):
+            text += "RANGES\n" + "".join("    rng r%d %s\n" % (i, q2s(rv)) for i, (_, _, rv) in enumerate(rows) if rv is not None)
+        text += "ENDATA\n"
+        jobs.append((rows, text))
+    def work(job):
+        rows, text = job
+        return proto.run_harness(exe, ["putfile %s %s" % (hx("r.mps"), hx(text)), "read 0 MPS " + hx("r.mps"), "dumpapi 0",
+                                       "write 0 MPS " + hx("w.mps"), "getfile " + hx("w.mps")], timeout=120)
+    from concurrent.futures import ThreadPoolExecutor
+    with ThreadPoolExecutor(build.NCPU) as ex:
+        trs = list(ex.map(work, jobs))
+    model = solvelib.Model(*proto.INF_LINE.split()[1:3])
+    pend = []
+    for (rows, text), tr in zip(jobs, trs):
+        ctx = {"file": text}
+        if tr.crashed and getattr(tr, "returncode", 0) != 3:
+            rep.violation("library crashed reading / writing an MPS file with RANGES: " + tr.crashed[-300:], ctx, signature={"symptom": "crash", "at": "ranges"})
+            continue
+        if proto.get(tr[1][1], "read") != ["ok"]:
+            rep.violation("the reader rejects a well-formed MPS file with a RANGES section", ctx, signature={"symptom": "read-rejects", "fmt": "MPS-ranges"})
+            continue
+        back = parse_dump(tr[2][1])
+        if back is None:
+            continue
+        ks = [model.ask("mpsrange %s %s %s" % (s_, q2s(rhs), "-" if rv is None else q2s(rv))) for s_, rhs, rv in rows]
+        pend.append((rows, text, back, ks, tr))
+    model.run()
+    for rows, text, back, ks, tr in pend:
+        lp, cn, rn, flags = back
+        ctx = {"file": text}
+        ev.count("ranges|" + text)
+        ev.cov["traces_validated_against_impl"] += 1
+        for i, ((s_, rhs, rv), k) in enumerate(zip(rows, ks)):
+            want = proto.get(model.ans(k), "row")
+            idx = rn.index("r%d" % i) if ("r%d" % i) in rn else None
+            ev.stat("ranges:%s %s" % (s_, "none" if rv is None else "zero" if rv == 0 else "neg" if rv < 0 else "pos"))
+            if idx is None:
+                rep.violation("row r%d is missing after reading the file" % i, ctx, signature={"symptom": "ranges-row-missing"})
+                break
+            got = [lp.rows[idx][0], q2s(lp.rows[idx][1]), q2s(lp.rows[idx][2]) if lp.rows[idx][0] == "R" else "0"]
+            if got != want:
+                rep.violation("a %s row with rhs %s and RANGES value %s is read as %s, the MPS meaning (Lean readRow) is %s" % (s_, q2s(rhs), "none" if rv is None else q2s(rv), got, want),
+                              ctx, signature={"symptom": "ranges-read-differs", "sense": s_})
+                break
+        # writer side: every 'R' row of the read problem must go out as a G row with its range
+        fb = proto.get(tr[4][1], "file") if len(tr) >= 5 else None
+        if fb and fb[0] not in ("missing", "-"):
+            wtxt = bytes.fromhex(fb[0]).decode("latin-1")
+            rsec = wtxt.split("\nRANGES\n", 1)[1].split("\nBOUNDS\n")[0].split("\nENDATA")[0] if "\nRANGES\n" in wtxt else ""
+            wr = {t.split()[1]: q2s(gen.s2q(t.split()[2])) for t in rsec.split("\n") if len(t.split()) >= 3}
+            rowsec = wtxt.split("\nROWS\n", 1)[1].split("\nCOLUMNS\n")[0]
+            ws = {t.split()[1]: t.split()[0] for t in rowsec.split("\n") if len(t.split()) == 2}
+            for i, r_ in enumerate(lp.rows):
+                nm = rn[i]
+                exp_s, exp_r = ("G", q2s(r_[2])) if r_[0] == "R" else (r_[0], None)
+                if ws.get(nm) != exp_s or wr.get(nm) != exp_r:
+                    rep.violation("the MPS writer renders row %s (%s, range %s) as sense %s with RANGES %s; the modelled writer gives %s / %s" %
+                                  (nm, r_[0], q2s(r_[2]), ws.get(nm), wr.get(nm), exp_s, exp_r), dict(ctx, written=wtxt[:2000]), signature={"symptom": "ranges-write-differs"})
+                    break
+
+
 def fmt_row(v):
     return "%s rhs=%s range=%s {%s}" % (v[0], q2s(v[1]), q2s(v[2]), ", ".join("%s:%s" % (k, q2s(a)) for k, a in sorted(v[3].items())))
 
@@ -331,6 +410,8 @@ def run(pid, tier, seed):
                 bounds_jobs.append((fmt, ftxt, ocn, "bounds %s %d %s" % (fmt, len(olp.cols), cols), dict(ctx, file=ftxt[:3000])))
         if len(ev.cov["samples"]) < 3 and text:
             ev.sample({"file": text[:700]})
+    if pid == "C09":
+        ranges_tie(exe, rng.fork("ranges"), quick, ev, rep)
     # the Bounds / BOUNDS section the writers produced vs the Lean codec (whose round trip is proved)
     bm = solvelib.Model(*proto.INF_LINE.split()[1:3])
     bks = [bm.ask(j[3]) for j in bounds_jobs]
